@@ -96,7 +96,8 @@ def gen(out, per_file, seed):
     repo = S.make_copy()
     subprocess.run("git init -q && git add -A && git commit -qm base", shell=True, cwd=repo, capture_output=True)
     cands = []
-    for rel in FILES:
+    only = os.environ.get("MUT_FILES")
+    for rel in (only.split(",") if only else FILES):
         src = open(os.path.join(repo, rel)).read()
         ss = sites(rel, src)
         # the opcode table is data, not logic: sample fewer from it
